@@ -656,6 +656,13 @@ fn step(rng: &mut Rng, sink: &mut Sink, w: &mut World, focus: &str) {
                         w.operator = newop;
                     }
                 }
+                8 if rng.chance(1, 2) => {
+                    // the owner upgrades the service (same code; `upgrade()` is empty): nothing may change
+                    let owner = w.owner.clone();
+                    w.tx(sink, &owner, "upgradeContract", 0, "-", &[b"its".to_vec(), vec![5u8, 6u8]]);
+                    w.query(sink, "isPaused", &[]);
+                    w.query(sink, "trustedAddress", &[ETH.to_vec()]);
+                }
                 _ => {
                     w.query(sink, "isPaused", &[]);
                     w.query(sink, "trustedAddress", &[ETH.to_vec()]);
